@@ -65,6 +65,22 @@ Theorem C14_mmhsum_single_chunk :
 Proof. exact mmhsum_single_chunk_proof. Qed.
 Print Assumptions C14_mmhsum_single_chunk.
 
+(* mmhsum in general: the input is cut into buffer-sized chunks (all full except possibly the last, none empty)
+   and the hash is chained through them starting from 0 *)
+Theorem C14_mmhsum_chain :
+  forall bs, exists chunks, concat chunks = bs /\
+    Forall (fun ch => ch <> [] /\ Z.of_nat (length ch) <= mmhsum_buffer) chunks /\
+    Forall (fun ch => Z.of_nat (length ch) = mmhsum_buffer) (removelast chunks) /\
+    mmhsum bs = fold_left (fun h ch => murmur64a ch h) chunks 0.
+Proof. exact mmhsum_chain_proof. Qed.
+Print Assumptions C14_mmhsum_chain.
+
+(* order_independent_hash does not depend on the order of the lines *)
+Theorem C14_order_independent :
+  forall l1 l2, Permutation.Permutation l1 l2 -> order_independent_hash l1 = order_independent_hash l2.
+Proof. exact order_independent_proof. Qed.
+Print Assumptions C14_order_independent.
+
 (* ---- non-vacuity: published test values / concrete data *)
 Example C14_nonvacuous_values :
   bytes_okb [104; 101; 108; 108; 111; 32; 119; 111; 114; 108; 100; 33] = true /\
@@ -78,4 +94,10 @@ Example C14_nonvacuous_fold :
   hash_fold shard_seed [[97; 98]; [99]] = murmur64a [99] (murmur64a [97; 98] 47849374332489) /\
   shard_index [[97; 98]; [99]] 5 = 2 /\
   case_key_train [104] [72] = murmur64a [104] (murmur64a [72] 0).
+Proof. vm_compute. repeat split. Qed.
+
+Example C14_nonvacuous_order :
+  order_independent_hash [[97]; [98; 99]; []] = order_independent_hash [[]; [97]; [98; 99]] /\
+  order_independent_hash [[97]; [98; 99]; []] = (murmur64a [97] 0 + murmur64a [98; 99] 0 + murmur64a [] 0) mod two64 /\
+  mmhsum_with 2 [1; 2; 3; 4; 5] = murmur64a [5] (murmur64a [3; 4] (murmur64a [1; 2] 0)).
 Proof. vm_compute. repeat split. Qed.
